@@ -272,7 +272,7 @@ def gen(region, seed, size='quick'):
     else:
         T = rng.choice([40, 80, 120, 200] if not big else [120, 200, 400, 800])
         cfg['run'] = ['time', T]
-        cfg['max_frames'] = 600 if not big else 3000
+        cfg['max_frames'] = 600 if not big else 1500
     if f.get('fanout'):
         n = cfg['n'] = 3
         k = cfg['k']
